@@ -128,6 +128,9 @@ func (e *envelopeEncryption) intermediateKeyFromEKR(sk accessorRevokable, ekr *E
 		return e.Crypto.Decrypt(ekr.EncryptedKey, skBytes)
 	})
 	if err != nil {
+		// the key may already have been decrypted when the error occurred (releasing sk failed)
+		internal.MemClr(ikBuffer)
+
 		return nil, err
 	}
 
